@@ -305,6 +305,10 @@ pub fn corpus(tier: Tier) -> Vec<String> {
         }
     }
     out.push("-mmin 1 -fprint f".to_string());
+    // trees built through the public constructors (see children::built_trees)
+    for k in 0..crate::props::children::built_trees().len() {
+        out.push(format!("\u{1}T:{k}"));
+    }
     out.push(String::new());
     out
 }
